@@ -53,9 +53,11 @@ func menu(i int) []*st {
 		{kw: "m:ext", arg: "an arg", kids: []*st{{kw: "m:sub", noArg: true}}},
 		{kw: "rpc", arg: n("r"), kids: []*st{{kw: "input", noArg: true, kids: []*st{leaf("i")}}}},
 		{kw: "container", arg: n("c")},
-		{kw: "leaf", arg: n("m"), kids: []*st{{kw: "type", arg: "string"}, {kw: "description", raw: "two\n" + strings.Repeat(" ", 100) + "words\n  end"}}},
+		{kw: "leaf", arg: n("m"), kids: []*st{{kw: "type", arg: "string"}, {kw: "description", raw: "two\n" + strings.Repeat(" ", 100) + "words\n  end\n" + exactIndent + "\ttab\n" + exactIndentTab + "\t\ttabs\n" + exactIndent + " blank"}}},
 	}
 }
+
+const exactIndent, exactIndentTab = "\x00EXACT\x00", "\x00EXACTTAB\x00"
 
 type token struct {
 	text string
@@ -161,7 +163,20 @@ func render(toks []token, seps []string, exp []expNode) string {
 			// RFC 6020 6.1.3: continuation lines are stripped up to the column of the opening quote
 			cur := b.String()
 			q := yangstr.Width(cur[strings.LastIndex(cur, "\n")+1:])
-			exp[t.rawOf].arg, _ = yangstr.DecodeDouble(t.raw, q)
+			// the marker stands for indentation that ends exactly in the column after the quote,
+			// written with blanks / with a tab and blanks: what follows it is text, also a tab
+			raw := strings.ReplaceAll(t.raw, exactIndent, strings.Repeat(" ", q+1))
+			if q+1 >= 8 {
+				raw = strings.ReplaceAll(raw, exactIndentTab, "\t"+strings.Repeat(" ", q+1-8))
+			} else {
+				raw = strings.ReplaceAll(raw, exactIndentTab, strings.Repeat(" ", q+1))
+			}
+			var ok bool
+			if exp[t.rawOf].arg, ok = yangstr.DecodeDouble(raw, q); !ok {
+				panic("c10: the raw argument is not settled by the reference: " + raw)
+			}
+			write("\"" + raw + "\"")
+			continue
 		}
 		write(t.text)
 	}
@@ -304,7 +319,8 @@ func run(c *engine.Ctx) {
 			tvs := trivia
 			if toks[b-1].raw != "" {
 				// a comment that repeats the raw text of the string before it
-				tvs = append(append([]string{}, trivia...), " /* "+toks[b-1].raw+" */ ", "/*\""+toks[b-1].raw+"\"*/")
+				plain := strings.NewReplacer(exactIndent, "     ", exactIndentTab, "\t ").Replace(toks[b-1].raw)
+				tvs = append(append([]string{}, trivia...), " /* "+plain+" */ ", "/*\""+plain+"\"*/")
 			}
 			for vi, tv := range tvs {
 				if tv == "" && !(toks[b].glue || toks[b-1].text == "{" || toks[b-1].text == "}" || toks[b-1].text == ";" || toks[b-1].glue && toks[b-1].text != toks[b-1].text) {
